@@ -9,6 +9,7 @@ import (
 	"encoding/json"
 	"math"
 	"os"
+	"reflect"
 )
 
 type vInput struct {
@@ -157,4 +158,16 @@ func vIte(c bool, a, b int) int {
 		return a
 	}
 	return b
+}
+
+// vMapOrderFixed(true): the engine stops exploring map iteration orders (insertion order is used) until it is
+// switched back; used around code whose order-dependence is another property's subject.
+func vMapOrderFixed(fixed bool) {}
+
+// vExtract: ExtractTypeNameMap with map iteration order held fixed (its order-independence is C16's subject).
+func vExtract(v interface{}) (map[string]reflect.Type, map[string]string) {
+	vMapOrderFixed(true)
+	t, n := ExtractTypeNameMap(v)
+	vMapOrderFixed(false)
+	return t, n
 }
